@@ -112,8 +112,10 @@ func (c RawConfiguration) CorrectableCall(ctx context.Context, d CorrectableCall
 		streamDone = corr.donech
 	}
 
-	replyChan := make(chan response, expectedReplies)
-	for _, n := range c {
+	// determine the message for each node first; the number of expected
+	// replies must be known before the replies are processed.
+	msgs := make([]protoreflect.ProtoMessage, len(c))
+	for i, n := range c {
 		msg := d.Message
 		if d.PerNodeArgFn != nil {
 			msg = d.PerNodeArgFn(d.Message, n.id)
@@ -122,15 +124,37 @@ func (c RawConfiguration) CorrectableCall(ctx context.Context, d CorrectableCall
 				continue // don't send if no msg
 			}
 		}
-		n.channel.enqueue(request{ctx: ctx, msg: &Message{Metadata: md, Message: msg}, done: streamDone}, replyChan, d.ServerStream)
+		msgs[i] = msg
 	}
 
+	// Process responses already while the requests are handed to the nodes:
+	// with server streams a node may respond several times before the
+	// request has been handed to the last node.
+	replyChan := make(chan response, len(c))
 	go c.handleCorrectableCall(ctx, corr, correctableCallState{
 		md:              md,
 		data:            d,
 		replyChan:       replyChan,
 		expectedReplies: expectedReplies,
 	})
+
+	for i, n := range c {
+		if msgs[i] == nil {
+			continue
+		}
+		n.channel.enqueue(request{ctx: ctx, msg: &Message{Metadata: md, Message: msgs[i]}, done: streamDone}, replyChan, d.ServerStream)
+	}
+	if d.ServerStream {
+		select {
+		case <-corr.donech:
+			// the call completed while requests were still being handed
+			// over; remove the routers that were added since.
+			for _, n := range c {
+				n.channel.deleteRouter(md.MessageID)
+			}
+		default:
+		}
+	}
 
 	return corr
 }
